@@ -294,3 +294,7 @@ TEXT["C11"].update(
 TEXT["C06"].update(
     engine="verus+kani+bounded",
     level=TEXT["C06"]["level"] + " Bounded (engine B, real calculate_expiry / insert_cache_entry / get_entry, body-independent): for every history of up to 3 insertions under one key and 8 probe offsets around the boundaries, a reply is served from the cache iff the offset is below the smallest TTL of the reply inserted LAST, and every served TTL is the stored one minus the whole seconds elapsed.")
+
+TEXT["C15"].update(
+    engine="verus+kani+bounded",
+    level=TEXT["C15"]["level"] + " Kani (black box, bounded): Domain::ends_with on names and suffixes of up to 2 labels of 1..2 symbolic octets -- whole labels, equal up to ASCII letter case only.")
